@@ -362,6 +362,59 @@ def native_engine(run) -> None:
         shutil.rmtree(work, ignore_errors=True)
 
 
+def law_near_twins(run, rng, a, engine, case) -> None:
+    """The same expressions evaluated back to back for two rotations that differ by less than the tolerance of Angle.__eq__ /
+    FrozenAngle.__hash__ (1e-6 degrees): every result must be the rotation of ITS operand, whatever was computed before it.
+    Vectors of magnitude 1e6 make a difference of 1e-9 degrees visible (1.7e-5 units against a tolerance of 4e-6)."""
+    from srctools.math import Vec, FrozenVec, Matrix, FrozenMatrix, MatrixBase
+    delta = tuple(rng.choice((-1, 1)) * rng.choice((1e-9, 1e-8, 2e-7, 4e-7, 9e-7)) if rng.random() < 0.8 else 0.0 for _ in range(3))
+    if not any(delta):
+        delta = (0.0, 4e-7, 0.0)
+    twin = tuple(x + d for x, d in zip(a, delta))
+    v = tuple(rng.uniform(-1e6, 1e6) for _ in range(3))
+    vmag = max(abs(x) for x in v)
+    case = dict(case, twin=twin, big_v=v)
+    b = gen_angle(rng, 0)
+    mb = model_matrix(*b)
+    order = [a, twin] if rng.random() < 0.5 else [twin, a]
+    for ka in ROT_KINDS:
+        for vk in ('Vec', 'FrozenVec', 'tuple'):
+            for ang in order:
+                want = vmul(v, model_matrix(*ang))
+                A = make_rot(ka, ang)
+                V = Vec(*v) if vk == 'Vec' else FrozenVec(*v) if vk == 'FrozenVec' else tuple(v)
+                res = V @ A
+                run.count('near_twin_evaluations')
+                d = vdiff((res.x, res.y, res.z), want)
+                if d > 1e-12 * vmag * 4 + 1e-15:
+                    run.violation(f'{vk} @ {ka} is off by {d:.3g} when a rotation {max(map(abs, delta)):.0e} degrees away was used just before',
+                                  witness={'got': (res.x, res.y, res.z), 'want': want}, case=case, engine=engine,
+                                  key='result-depends-on-earlier-near-equal-operand')
+                if vk != 'tuple':
+                    W = Vec(*v) if vk == 'Vec' else FrozenVec(*v)
+                    W @= A
+                    d = vdiff((W.x, W.y, W.z), want)
+                    if d > 1e-12 * vmag * 4 + 1e-15:
+                        run.violation(f'{vk} @= {ka} is off by {d:.3g} when a rotation {max(map(abs, delta)):.0e} degrees away was used just before',
+                                      case=case, engine=engine, key='result-depends-on-earlier-near-equal-operand')
+        for ang in order:
+            A = make_rot(ka, ang)
+            ma = model_matrix(*ang)
+            # matrix built from the rotation object, and rotation @ rotation / reflected forms with a fixed partner
+            got = mat_entries(Matrix.from_angle(A) if ka.endswith('Angle') else A)
+            if maxdiff(got, ma) > 4e-12:
+                run.violation(f'Matrix.from_angle({ka}) is off by {maxdiff(got, ma):.3g} after a near-equal angle was converted',
+                              case=case, engine=engine, key='result-depends-on-earlier-near-equal-operand')
+            for kb in ('Matrix', 'FrozenMatrix'):
+                B = make_rot(kb, b)
+                for label, C, want in ((f'{ka} @ {kb}', A @ B, mmul(ma, mb)), (f'{kb} @ {ka}', B @ A, mmul(mb, ma))):
+                    if isinstance(C, MatrixBase):
+                        run.count('near_twin_evaluations')
+                        if maxdiff(mat_entries(C), want) > 4e-12:
+                            run.violation(f'{label} is off by {maxdiff(mat_entries(C), want):.3g} after the same expression on a near-equal operand',
+                                          case=case, engine=engine, key='result-depends-on-earlier-near-equal-operand')
+
+
 def one_case(run, rng, i, engine) -> None:
     kind = (0, 0, 1, 2, 2, 3)[i % 6]
     a = gen_angle(rng, kind)
@@ -375,6 +428,8 @@ def one_case(run, rng, i, engine) -> None:
         law_operands(run, rng, a, b, v, engine, case)
     if i % 5 == 0:
         law_constructions(run, rng, engine, i)
+    if i % 4 == 1:
+        law_near_twins(run, rng, a, engine, case)
     run.case([a, b, v], nontrivial_angle(a), sample=case if i < 3 else None, tag=engine)
 
 
@@ -416,7 +471,7 @@ def main(run, shard=(0, 1)) -> None:
     probe.check_reached(run)
     if shard[0] == 0:
         native_engine(run)
-    run.require('from_angle_checked', 'to_angle_roundtrips', 'to_angle_gimbal_branch', 'operand_combos', 'assoc_checked',
+    run.require('near_twin_evaluations', 'from_angle_checked', 'to_angle_roundtrips', 'to_angle_gimbal_branch', 'operand_combos', 'assoc_checked',
                 'inverse_checked', 'constructed_rotations')
 
 
